@@ -102,6 +102,7 @@ def key_records(rows, obs, root, rng=None, nleaf=None):
                'net': r['net'], 'wt': r['wt'], 'id': r['id'], 'path': r['path'], 'exported': False, 'noaddr': False}
         if r['parent'] == 0 or r['parent'] not in obs:
             rec.update(root)
+            rec['noaddr'] = True            # the top key of a wallet is never paid to: its address column is not judged
         else:
             rec['parent'] = obs[r['parent']]
             rec['tok'] = codes(''.join(chr(c) for c in r['path']).split('/')[-1])
@@ -739,7 +740,7 @@ def run(replay=None):
     if replay:
         jobs = [replay['case']['job']]
     else:
-        jobs = jobs_for(300 if thorough else 42, common.seed() % 1000000, None if thorough else 6)
+        jobs = jobs_for(300 if thorough else 38, common.seed() % 1000000, None if thorough else 5)
     import time as _t
     T = [_t.time()]
 
